@@ -81,7 +81,7 @@ Definition classify (t : traits) (hb ha : heap) (o : op) : chg :=
                   | [] => match new_items with [] => true | _ => false end
                   | y :: _ => cont_equal f (hb y (items_field f)) new_items de
                   end in
-      if same then NoChange else Exact
+      if identity_field f then Exact else if same then NoChange else Exact
   | Splice c f _ _ _ => if list_eqb (hb c f) (ha c f) then AtMost else Exact
   | SpliceCont _ _ _ _ _ _ => Exact              (* a new list object is stored: always a change *)
   | Probe _ => Exact
